@@ -431,6 +431,46 @@ func (l *Loop) invariant(v ssa.Value, d int) bool {
 		return l.invariant(x.X, d+1)
 	case *ssa.ChangeType:
 		return l.invariant(x.X, d+1)
+	case *ssa.UnOp:
+		// a field re-read in every iteration (`i < len(p.scRefs)`): invariant when its object is, and nothing in the loop
+		// — no store, no map update, no callee according to the effect summaries — writes that field
+		if x.Op == token.MUL {
+			if fa, ok := x.X.(*ssa.FieldAddr); ok && l.invariant(fa.X, d+1) && equivCtx.p != nil && equivCtx.sums != nil {
+				f := fieldRefOfAddr(fa)
+				for b := range l.Blocks {
+					for _, in := range b.Instrs {
+						switch y := in.(type) {
+						case *ssa.Store:
+							if sfa, ok := y.Addr.(*ssa.FieldAddr); ok && fieldRefOfAddr(sfa) == f {
+								return false
+							}
+						case *ssa.MapUpdate:
+							if mf, _, ok := loadedField(y.Map); ok && mf == f {
+								return false
+							}
+						}
+						if cc := callCommon(in); cc != nil {
+							if c := calleeOf(cc); c.Builtin != "" {
+								if c.Builtin == "append" || c.Builtin == "delete" || c.Builtin == "copy" {
+									// (append returns a new slice value; only a store of it into the field would change the field)
+								}
+								continue
+							}
+							gs := equivCtx.p.calleesOf(cc)
+							if len(gs) == 0 {
+								continue // an external callee cannot name an unexported field of this module's types
+							}
+							for _, g := range gs {
+								if t := equivCtx.sums.Trans[g]; t == nil || t.Writes[f] {
+									return false
+								}
+							}
+						}
+					}
+				}
+				return true
+			}
+		}
 	}
 	return false
 }
